@@ -8,8 +8,8 @@ const trusted = "Trusted base: go/types, go/ssa and the CHA/VTA call graphs of g
 func init() {
 	property(&Property{
 		ID:      "C07",
-		Rules:   []string{"ET-1", "ET-2", "ET-3", "XF-H", "XF-1", "XF-2", "XF-3", "NR-1", "LB-const", "SX-crash-json", "SX-crash-schema", "SX-crash-enum", "SX-crash-schema-deep", "OR-4", "NR-2", "LB-param", "SX-eofspan-json", "SX-eofspan-schema", "SX-eofspan-enum"},
-		Explain: "LB-param: an index that comes in as a parameter is tested by the callee, or every caller tests what it passes. SX-eofspan-*: the events a scanner synthesises at the end of input end no further than one past the last byte. OR-4: recursion along user-type references is guarded, so a cycle of references cannot end in a stack overflow (a fatal error no handler stops). NR-2: a caller-supplied Schema is added as a type only after a test that it has a root node, so no added type can make the checker or validators dereference nil. Decides the structural clauses of C07 on the current tree: (ET) every errors.Format call site passes exactly as many arguments as its template has verbs, every ErrorCode used bare as an error value has a zero-verb template, every declared code has a template (the last sentence of the property, decided completely over all construction sites). (SX-crash) the transition relation of each of the three byte scanners is extracted from its Next() method by abstract interpretation of the SSA and explored breadth-first over every reachable abstract state (bounded stack depth / node cap) x all 256 byte values x end of input, following look-ahead reads with every possible following byte and with the input ending inside the look-ahead window: no transition may fail with anything but a positioned library error (no index out of range, no assertion panic, no unstructured error). (XF) exception flow: the explicit panic sites of the library (classified by the static type of the value) and the implicit ones (slice/string index and slice expressions that no dominating length test or range loop guards, type assertions without ok, integer division) are propagated bottom-up over the call graph through the recover handlers, whose transfer functions (absorb / re-raise / convert to DocumentError) are derived by interpreting each handler's own code on one representative value per class; XF-1: no value escapes any exported function of the API packages, except reviewed invariant assertions and reviewed in-range arguments (one line of reason each); XF-2: the API-level handlers turn only positioned errors into returned errors; XF-3: no bare error code is returned as an error value on a path reachable from the API. NR-1: the possibly empty root node is nil-checked before use in every API-layer function. LB-const: every constant-index read of a slice/string is dominated by a length test or reviewed.",
+		Rules:   []string{"ET-1", "ET-2", "ET-3", "XF-H", "XF-1", "XF-2", "XF-3", "NR-1", "LB-const", "SX-crash-json", "SX-crash-schema", "SX-crash-enum", "SX-crash-schema-deep", "OR-4", "NR-2", "LB-param", "SX-eofspan-json", "SX-eofspan-schema", "SX-eofspan-enum", "PL-5"},
+		Explain: "PL-5: a reused scanner or loader that keeps a stale queue or stack fails later with an assertion panic; reset completeness rules that out. LB-param: an index that comes in as a parameter is tested by the callee, or every caller tests what it passes. SX-eofspan-*: the events a scanner synthesises at the end of input end no further than one past the last byte. OR-4: recursion along user-type references is guarded, so a cycle of references cannot end in a stack overflow (a fatal error no handler stops). NR-2: a caller-supplied Schema is added as a type only after a test that it has a root node, so no added type can make the checker or validators dereference nil. Decides the structural clauses of C07 on the current tree: (ET) every errors.Format call site passes exactly as many arguments as its template has verbs, every ErrorCode used bare as an error value has a zero-verb template, every declared code has a template (the last sentence of the property, decided completely over all construction sites). (SX-crash) the transition relation of each of the three byte scanners is extracted from its Next() method by abstract interpretation of the SSA and explored breadth-first over every reachable abstract state (bounded stack depth / node cap) x all 256 byte values x end of input, following look-ahead reads with every possible following byte and with the input ending inside the look-ahead window: no transition may fail with anything but a positioned library error (no index out of range, no assertion panic, no unstructured error). (XF) exception flow: the explicit panic sites of the library (classified by the static type of the value) and the implicit ones (slice/string index and slice expressions that no dominating length test or range loop guards, type assertions without ok, integer division) are propagated bottom-up over the call graph through the recover handlers, whose transfer functions (absorb / re-raise / convert to DocumentError) are derived by interpreting each handler's own code on one representative value per class; XF-1: no value escapes any exported function of the API packages, except reviewed invariant assertions and reviewed in-range arguments (one line of reason each); XF-2: the API-level handlers turn only positioned errors into returned errors; XF-3: no bare error code is returned as an error value on a path reachable from the API. NR-1: the possibly empty root node is nil-checked before use in every API-layer function. LB-const: every constant-index read of a slice/string is dominated by a length test or reviewed.",
 		Assume: []string{
 			"termination of the API calls is not decided",
 			"nil dereferences other than the root-node rule, map writes to nil maps and stack exhaustion are not modelled as panic sources",
@@ -23,8 +23,8 @@ func init() {
 	})
 	property(&Property{
 		ID:      "C05",
-		Rules:   []string{"SA-J", "SA-JT", "SA-J3", "SA-JT3", "SA-Jglue", "CT-1", "ST-model"},
-		Explain: "ST-model: the stack the scanners keep their open lexemes in behaves like a plain list from every reachable (length, capacity) state with up to 40 elements — beyond the nesting bound of the products. CT-1: the scanners' window is the whole text — data and dataSize are set by the constructor only, from the file's Content() and its length. SA-Jglue: the one rule Document.Check adds to the scanner's verdict — a text for which the scanner delivers no lexeme is rejected as empty JSON, any other text is accepted when the scanner ends normally, scanner errors are returned unchanged — is read off Document.check and Document.nextLexeme themselves (scanner replaced by a staged oracle); the product rules take it as given. The transition relation of the formats/json scanner is extracted from its own Next() method by abstract interpretation of the SSA (scanner object tracked exactly, one input byte at a time, positions symbolic) and compared, by breadth-first product construction, with a reference RFC 8259 byte transducer: in every reachable state pair up to the nesting bound (2 quick, 4 thorough), for each of the 256 byte values and for end of input, the scanner rejects iff the reference rejects, accepts end of input iff the reference does (including the empty-document rule of Document.check), in strict mode and with AllowTrailingNonSpaceCharacters. Literal tokens (strings, numbers, true/false/null) are unbounded in length: their automaton states are merged, so the token language is decided for all lengths.",
+		Rules:   []string{"SA-J", "SA-JT", "SA-J3", "SA-JT3", "SA-Jglue", "CT-1", "ST-model", "LIM-1"},
+		Explain: "LIM-1: no counter is compared with a constant of 8 or more in the recogniser packages — no nesting, length or exponent limit. ST-model: the stack the scanners keep their open lexemes in behaves like a plain list from every reachable (length, capacity) state with up to 40 elements — beyond the nesting bound of the products. CT-1: the scanners' window is the whole text — data and dataSize are set by the constructor only, from the file's Content() and its length. SA-Jglue: the one rule Document.Check adds to the scanner's verdict — a text for which the scanner delivers no lexeme is rejected as empty JSON, any other text is accepted when the scanner ends normally, scanner errors are returned unchanged — is read off Document.check and Document.nextLexeme themselves (scanner replaced by a staged oracle); the product rules take it as given. The transition relation of the formats/json scanner is extracted from its own Next() method by abstract interpretation of the SSA (scanner object tracked exactly, one input byte at a time, positions symbolic) and compared, by breadth-first product construction, with a reference RFC 8259 byte transducer: in every reachable state pair up to the nesting bound (2 quick, 4 thorough), for each of the 256 byte values and for end of input, the scanner rejects iff the reference rejects, accepts end of input iff the reference does (including the empty-document rule of Document.check), in strict mode and with AllowTrailingNonSpaceCharacters. Literal tokens (strings, numbers, true/false/null) are unbounded in length: their automaton states are merged, so the token language is decided for all lengths.",
 		Assume: []string{
 			"nesting deeper than the bound is not explored (the scanner inspects only the top two stack entries)",
 			"the glue in Document.check/nextLexeme (recover, EndTop => EOF, zero lexemes => ErrEmptyJson) is modelled in the driver as read on the pinned tree; a change there is outside this rule",
@@ -51,8 +51,8 @@ func init() {
 	})
 	property(&Property{
 		ID:      "C13",
-		Rules:   []string{"SX-nl-schema", "SX-nl-enum", "SX-sp-schema", "SX-sp-enum", "NC-1", "SX-comment-schema", "SX-nl-schema-deep", "SX-sp-schema-deep", "SX-comment-schema-deep", "T-rawkey", "T-hex", "T-escape", "SX-eol-schema", "SX-eol-enum", "SX-blank-json", "SX-blank-schema", "SX-blank-enum", "T9", "SX-text-schema", "SX-text-enum", "SX-mode-schema", "RAW-2"},
-		Explain: "RAW-2: no byte-for-byte comparison of two JSON tokens (a key spelled with another escape sequence denotes the same key). SX-mode-schema: in every reachable abstract state (deep exploration, 40,000 states) the scanner's annotation mode says multi-line exactly when the innermost open annotation on its stack is a multi-line one. SX-text-*: note and comment text is opaque — every byte that does not begin the terminator stays in the text state silently (a lone * does not end a multi-line note). T9 (const part): a const rule compares strings in decoded form, so a document that spells the same string with other escape sequences gets the same verdict. SX-blank-*: a space accepted without an event and without handing over to another step function leaves the scanner in the same abstract state, so a mere blank sets no flag (the array-has-an-item flag used to be set by a blank after [). SX-eol-schema / SX-eol-enum: in every reachable inline-comment and inline-annotation state (including the one right after the opening # or //) a line break ends the comment and is delivered as a new-line event, so an empty comment does not swallow the next line. T-rawkey / T-hex / T-escape: keys are matched in decoded form; \\uXXXX digits decode as hexadecimal in either case for all 256 byte values at each digit position; the two-character escapes decode as RFC 8259 says for all 256 bytes after the backslash. SX-comment-schema: in every reachable comment state of the schema scanner a byte either delivers no lexical event or leaves the comment, so comments are invisible to the loader (line and node counting). Over the automaton extracted from the schema scanner and the enum-rule scanner (abstract interpretation of Next(), every reachable abstract state up to the stack bound / node cap): LF and CR have identical effect in every state (verdict, events with spans, successor state), so LF, CR and CRLF spellings scan alike; space and tab have identical effect in every state outside content states (string bodies, annotation/comment text, bare rule names — listed with reasons), so indentation style does not change the scan. NC-1: every comparison of a lexeme's text with a rule name (enum, type, or, the names in the rule constructor table) is made on the unquoted text, so quoted and bare rule names are equivalent.",
+		Rules:   []string{"SX-nl-schema", "SX-nl-enum", "SX-sp-schema", "SX-sp-enum", "NC-1", "SX-comment-schema", "SX-nl-schema-deep", "SX-sp-schema-deep", "SX-comment-schema-deep", "T-rawkey", "T-hex", "T-escape", "SX-eol-schema", "SX-eol-enum", "SX-blank-json", "SX-blank-schema", "SX-blank-enum", "T9", "SX-text-schema", "SX-text-enum", "SX-mode-schema", "RAW-2", "SX-eofnote-schema", "SX-eofnote-enum"},
+		Explain: "SX-eofnote-*: the end of the text ends an inline note or comment just as a line break does. RAW-2: no byte-for-byte comparison of two JSON tokens (a key spelled with another escape sequence denotes the same key). SX-mode-schema: in every reachable abstract state (deep exploration, 40,000 states) the scanner's annotation mode says multi-line exactly when the innermost open annotation on its stack is a multi-line one. SX-text-*: note and comment text is opaque — every byte that does not begin the terminator stays in the text state silently (a lone * does not end a multi-line note). T9 (const part): a const rule compares strings in decoded form, so a document that spells the same string with other escape sequences gets the same verdict. SX-blank-*: a space accepted without an event and without handing over to another step function leaves the scanner in the same abstract state, so a mere blank sets no flag (the array-has-an-item flag used to be set by a blank after [). SX-eol-schema / SX-eol-enum: in every reachable inline-comment and inline-annotation state (including the one right after the opening # or //) a line break ends the comment and is delivered as a new-line event, so an empty comment does not swallow the next line. T-rawkey / T-hex / T-escape: keys are matched in decoded form; \\uXXXX digits decode as hexadecimal in either case for all 256 byte values at each digit position; the two-character escapes decode as RFC 8259 says for all 256 bytes after the backslash. SX-comment-schema: in every reachable comment state of the schema scanner a byte either delivers no lexical event or leaves the comment, so comments are invisible to the loader (line and node counting). Over the automaton extracted from the schema scanner and the enum-rule scanner (abstract interpretation of Next(), every reachable abstract state up to the stack bound / node cap): LF and CR have identical effect in every state (verdict, events with spans, successor state), so LF, CR and CRLF spellings scan alike; space and tab have identical effect in every state outside content states (string bodies, annotation/comment text, bare rule names — listed with reasons), so indentation style does not change the scan. NC-1: every comparison of a lexeme's text with a rule name (enum, type, or, the names in the rule constructor table) is made on the unquoted text, so quoted and bare rule names are equivalent.",
 		Assume: []string{
 			"comment placement, inline versus multi-line annotation equivalence, quoted versus bare rule names, rule order and escape normalisation are not decided by these rules",
 			"the schema scanner's state space is explored breadth-first up to a node cap (5000 states quick)",
@@ -64,8 +64,8 @@ func init() {
 	})
 	property(&Property{
 		ID:      "C14",
-		Rules:   []string{"LEN-trim", "LEN-json", "LEN-schema", "LEN-enum", "LEN-json-deep", "LEN-schema-deep", "LEN-enum-deep", "SX-eol-schema", "SX-eol-enum", "CT-1", "RX-3", "SX-eofspan-json", "SX-eofspan-schema", "SX-eofspan-enum"},
-		Explain: "SX-eofspan-*: events synthesised at the end of input stay inside the text, so the length computed from their span does. RX-3: the regex type's Len is the pattern's length + 2, the pattern ending at the first unescaped slash (loop automaton decided for all states and bytes). CT-1: the scanners' window is the whole text — data and dataSize are set by the constructor only, from the file's Content() and its length. SX-eol-*: a trailing inline comment or note ends at its line break, so the length does not run over the next line of the enclosing text. LEN-trim reads off each Length() method's own code (abstract interpretation with Next() replaced by a staged oracle delivering symbolic lexemes) what it holds before trimming — End of the last lexeme + k, and what the end-top marker does to it — and that the trimming loop steps back over blank bytes one at a time from data[P-1]. LEN-json / LEN-schema / LEN-enum walk the product of the scanner model extracted from Next() in length mode with the RFC 8259 reference transducer in trailing mode, for every byte value in every reachable state pair up to nesting 2, carrying as ghost state where the top-level value ended (V), where the first foreign byte is (F) and the value Length() would hold (G), as offsets from the byte just consumed. Wherever the scan can stop — the end-top marker (foreign byte directly after the value, after blanks, or one byte late), or end of input — V+1 <= G <= F must hold, so that trimming lands exactly on the length of the value; a text cut short inside a value must yield an error, and a foreign byte after a complete value must not.",
+		Rules:   []string{"LEN-trim", "LEN-json", "LEN-schema", "LEN-enum", "LEN-json-deep", "LEN-schema-deep", "LEN-enum-deep", "SX-eol-schema", "SX-eol-enum", "CT-1", "RX-3", "SX-eofspan-json", "SX-eofspan-schema", "SX-eofspan-enum", "LEN-mode-schema", "LEN-mode-enum"},
+		Explain: "LEN-mode-*: with the length flag set the scanner accepts the same bytes with the same events as without it wherever the normal mode accepts (side-by-side exploration), so annotations, notes and comments that belong to the text are inside its length. SX-eofspan-*: events synthesised at the end of input stay inside the text, so the length computed from their span does. RX-3: the regex type's Len is the pattern's length + 2, the pattern ending at the first unescaped slash (loop automaton decided for all states and bytes). CT-1: the scanners' window is the whole text — data and dataSize are set by the constructor only, from the file's Content() and its length. SX-eol-*: a trailing inline comment or note ends at its line break, so the length does not run over the next line of the enclosing text. LEN-trim reads off each Length() method's own code (abstract interpretation with Next() replaced by a staged oracle delivering symbolic lexemes) what it holds before trimming — End of the last lexeme + k, and what the end-top marker does to it — and that the trimming loop steps back over blank bytes one at a time from data[P-1]. LEN-json / LEN-schema / LEN-enum walk the product of the scanner model extracted from Next() in length mode with the RFC 8259 reference transducer in trailing mode, for every byte value in every reachable state pair up to nesting 2, carrying as ghost state where the top-level value ended (V), where the first foreign byte is (F) and the value Length() would hold (G), as offsets from the byte just consumed. Wherever the scan can stop — the end-top marker (foreign byte directly after the value, after blanks, or one byte late), or end of input — V+1 <= G <= F must hold, so that trimming lands exactly on the length of the value; a text cut short inside a value must yield an error, and a foreign byte after a complete value must not.",
 		Assume: []string{
 			"the embedded text is plain JSON (values, arrays of scalars for enums): annotations, comments, type shortcuts and other JSight-only syntax after or inside the schema are not walked by this product (annotation and comment starters are not treated as foreign bytes)",
 			"that Check accepts the prefix with the same meaning is C05/C06 for JSON (same scanner, same events); for schemas it is not decided here",
@@ -79,8 +79,8 @@ func init() {
 	})
 	property(&Property{
 		ID:      "C17",
-		Rules:   []string{"SX-pos-json", "SX-pos-schema", "SX-pos-enum", "LB-render", "XF-render", "SX-pos-schema-deep", "POS-1"},
-		Explain: "POS-1: the functions that attach a position to a library error (deferred CatchLexEventError) are the 15 reviewed ones, each given the reviewed lexeme; the innermost handler wins, so a handler added further in moves errors to another token. Over the automata extracted from the three scanners: every rejecting transition (any byte in any reachable abstract state, and end of input) produces a DocumentError on which SetIndex was called and whose index is the offset of the byte just consumed (the last byte of the input when it ends early) — the position is symbolic in the model, so this holds for all inputs reaching the state. LB-render: the renderer stays inside the file content — preparation() brings a position outside the content back inside it, every renderer method that indexes the content first returns on empty content and calls preparation() (dominance), the line helpers are only called after it, and the count given to strings.Repeat is provably non-negative. XF-render: no panic (explicit, or an index/slice expression outside the recognised guards and the reviewed in-range table, which is keyed by the operand expressions) can escape an exported function of package errors.",
+		Rules:   []string{"SX-pos-json", "SX-pos-schema", "SX-pos-enum", "LB-render", "XF-render", "SX-pos-schema-deep", "POS-1", "POS-2"},
+		Explain: "POS-2: lexemes are made by the scanners only, so every error position is the span of something a scanner delivered. POS-1: the functions that attach a position to a library error (deferred CatchLexEventError) are the 15 reviewed ones, each given the reviewed lexeme; the innermost handler wins, so a handler added further in moves errors to another token. Over the automata extracted from the three scanners: every rejecting transition (any byte in any reachable abstract state, and end of input) produces a DocumentError on which SetIndex was called and whose index is the offset of the byte just consumed (the last byte of the input when it ends early) — the position is symbolic in the model, so this holds for all inputs reaching the state. LB-render: the renderer stays inside the file content — preparation() brings a position outside the content back inside it, every renderer method that indexes the content first returns on empty content and calls preparation() (dominance), the line helpers are only called after it, and the count given to strings.Repeat is provably non-negative. XF-render: no panic (explicit, or an index/slice expression outside the recognised guards and the reviewed in-range table, which is keyed by the operand expressions) can escape an exported function of package errors.",
 		Assume: []string{
 			"that the rejecting byte is the *first* byte that cannot continue the text follows from C05's language equivalence for JSON documents only",
 			"validator/loader error positions, and that the rendered line number / line text / caret column are the right ones (rather than merely safe to compute), are not covered by these rules",
@@ -109,8 +109,8 @@ func init() {
 	const tableLevel = "Each table is a complete decision, over every valuation of its finite atoms, of one structural clause of the property on the current tree; cells the statement does not determine are don't-care. Necessary conditions of the behavioural statement, not the statement as a whole."
 	property(&Property{
 		ID:      "C01",
-		Rules:   []string{"T7", "T8", "TA", "T-object", "T-array", "T-tree", "T-list", "T-any", "T11", "FR-1", "VF-1", "T-rawkey", "T-tree-deep", "RAW-2", "T-null"},
-		Explain: "RAW-2: document keys are compared in decoded form with the example of a rule-less key type. T-null: the validator nullable adds next to referenced types admits null and nothing else. T-rawkey: a document key finds its property by its decoded text (escape sequences resolved). FR-1: no field of a long-lived object (API objects, compiled schema, constraints) and no package variable can hold a per-operation helper (validator tree, validators, example builder, collectors, checker state), so the bookkeeping of one operation cannot reach the next or a concurrent one. VF-1: a validator has no slot for other validators except its parent link: child validators are made for one value and handed to the tree. T7: the JSON-kind compatibility decision of a scalar document value against a scalar example node (same kind | integer for float | null only where nullable is present; skipped only under an enum rule), extracted from checkNotAnEnum for every document kind x example kind x presence of nullable/enum. T8: required-key registration in the compiler — a property becomes required iff it is not optional (optional absent and keys not optional by default, or optional:false); optional on a non-property is rejected; the registered key is the node's own. TA: ArrayNode.Child selects example element min(i, len-1) and rejects on an empty example array, for all orderings of i against len. T-object: the object validator per lexical event — a key removes exactly itself from the keys still owed, the object may end only when nothing is owed, a key the example names is validated against that property, an unknown key goes to key shortcuts, then additionalProperties, else is rejected at the key. T-array: an item is checked against the example element at the running index, which advances by one; array-end gives the item count to every item-count rule. T-tree: the live-candidate bookkeeping of Tree.FeedLeaves for 1..3 candidates and all per-candidate outcomes (reject iff all failed; failed ones dropped; completed ones step back to their parent; children spliced in). T-any/T11: type any swallows exactly one value by depth counting, IsOpening classifies the JSON events correctly.",
+		Rules:   []string{"T7", "T8", "TA", "T-object", "T-array", "T-tree", "T-list", "T-any", "T11", "FR-1", "VF-1", "T-rawkey", "T-tree-deep", "RAW-2", "T-null", "PIPE-1"},
+		Explain: "PIPE-1: every compile step (including the one that records required keys) runs for every node. RAW-2: document keys are compared in decoded form with the example of a rule-less key type. T-null: the validator nullable adds next to referenced types admits null and nothing else. T-rawkey: a document key finds its property by its decoded text (escape sequences resolved). FR-1: no field of a long-lived object (API objects, compiled schema, constraints) and no package variable can hold a per-operation helper (validator tree, validators, example builder, collectors, checker state), so the bookkeeping of one operation cannot reach the next or a concurrent one. VF-1: a validator has no slot for other validators except its parent link: child validators are made for one value and handed to the tree. T7: the JSON-kind compatibility decision of a scalar document value against a scalar example node (same kind | integer for float | null only where nullable is present; skipped only under an enum rule), extracted from checkNotAnEnum for every document kind x example kind x presence of nullable/enum. T8: required-key registration in the compiler — a property becomes required iff it is not optional (optional absent and keys not optional by default, or optional:false); optional on a non-property is rejected; the registered key is the node's own. TA: ArrayNode.Child selects example element min(i, len-1) and rejects on an empty example array, for all orderings of i against len. T-object: the object validator per lexical event — a key removes exactly itself from the keys still owed, the object may end only when nothing is owed, a key the example names is validated against that property, an unknown key goes to key shortcuts, then additionalProperties, else is rejected at the key. T-array: an item is checked against the example element at the running index, which advances by one; array-end gives the item count to every item-count rule. T-tree: the live-candidate bookkeeping of Tree.FeedLeaves for 1..3 candidates and all per-candidate outcomes (reject iff all failed; failed ones dropped; completed ones step back to their parent; children spliced in). T-any/T11: type any swallows exactly one value by depth counting, IsOpening classifies the JSON events correctly.",
 		Assume: []string{
 			"each table decides one step (one lexical event, one call) for all valuations of its atoms; the composition of steps over a whole document (required-key dynamics across nested objects, duplicate keys, property order) is not decided",
 		},
@@ -134,8 +134,8 @@ func init() {
 	})
 	property(&Property{
 		ID:      "C08",
-		Rules:   []string{"T1", "T2", "T5", "T6", "T9", "OM-model", "T-pairs", "T-banned", "T-compat", "OM-model-deep", "OR-6", "T-foreign"},
-		Explain: "T-foreign: the four no-other-rules checks (enum, or, any, type reference) reject a node whenever a rule outside their reviewed companion lists is present, the node's rule count being modelled as queried-and-present plus others. OR-6: the pair comparison runs after the exclusive flags are folded into their bounds, so that strictness applies (T5 and T6 decide the two steps, OR-6 their order). T-banned: allowedConstraintCheck rejects exactly the combinations format rule + minLength/maxLength/regex and any + const, decided from the rules present on the node. T-compat: checkCompatibilityOfConstraints rejects a plain node iff one of its rules does not apply to its kind, whatever other rules are present. T-pairs: checkPairConstraints runs the pair check that applies to a plain JSON kind and all three on nodes whose kind does not decide (rule-sets of an or rule are compiled on nodes of kind mixed). T1: the applicability matrix — IsJsonTypeCompatible of every constraint type evaluated on every JSON kind equals the matrix the property states (numeric rules on numbers, precision on float, length/regex/format rules on strings, item counts on arrays, additionalProperties/allOf on objects). T2: every rule name builds the constraint of that name, unknown names are rejected. T5: paired bounds are accepted iff min<=max (strictly when either is exclusive), minLength<=maxLength, minItems<=maxItems. T6: exclusive flags without their bound are rejected. T9 + OM-model: the false-rule filter removes exactly nullable:false/const:false, and the ordered map's Filter visits every entry exactly once whatever is removed — the source of the order dependence named in the property.",
+		Rules:   []string{"T1", "T2", "T5", "T6", "T9", "OM-model", "T-pairs", "T-banned", "T-compat", "OM-model-deep", "OR-6", "T-foreign", "PIPE-1"},
+		Explain: "PIPE-1: every rule-consistency step of compileNode is on every path to a normal return. T-foreign: the four no-other-rules checks (enum, or, any, type reference) reject a node whenever a rule outside their reviewed companion lists is present, the node's rule count being modelled as queried-and-present plus others. OR-6: the pair comparison runs after the exclusive flags are folded into their bounds, so that strictness applies (T5 and T6 decide the two steps, OR-6 their order). T-banned: allowedConstraintCheck rejects exactly the combinations format rule + minLength/maxLength/regex and any + const, decided from the rules present on the node. T-compat: checkCompatibilityOfConstraints rejects a plain node iff one of its rules does not apply to its kind, whatever other rules are present. T-pairs: checkPairConstraints runs the pair check that applies to a plain JSON kind and all three on nodes whose kind does not decide (rule-sets of an or rule are compiled on nodes of kind mixed). T1: the applicability matrix — IsJsonTypeCompatible of every constraint type evaluated on every JSON kind equals the matrix the property states (numeric rules on numbers, precision on float, length/regex/format rules on strings, item counts on arrays, additionalProperties/allOf on objects). T2: every rule name builds the constraint of that name, unknown names are rejected. T5: paired bounds are accepted iff min<=max (strictly when either is exclusive), minLength<=maxLength, minItems<=maxItems. T6: exclusive flags without their bound are rejected. T9 + OM-model: the false-rule filter removes exactly nullable:false/const:false, and the ordered map's Filter visits every entry exactly once whatever is removed — the source of the order dependence named in the property.",
 		Assume: []string{
 			"companion-rule exclusivity counts (or / enum / any / type references with foreign rules), duplicate-rule detection and order independence beyond the filter are not decided",
 		},
@@ -146,8 +146,8 @@ func init() {
 	})
 	property(&Property{
 		ID:      "C10",
-		Rules:   []string{"SA-N", "FL-1", "FL-2", "EE-1", "T3", "T-cmp", "NZ-1", "T9", "NX-1", "T-intfloat"},
-		Explain: "T-intfloat: the four integer/float classifiers answer float iff the text has a decimal point and no exponent mark or a fraction is left after normalisation, integer iff it parses otherwise — for every text of up to three bytes over {., e, E, digit}, parser and fraction length as atoms. NX-1: after the recogniser accepted a numeral no function on the way to its Number makes an error of its own (reviewed sites aside), so no magnitude or length limit is imposed. T9 (const part): a const rule compares two numerals by exact value (Number.Cmp), not by spelling. NZ-1: the function that builds an exact Number clears the sign when no significant digit is left, so negative zero equals zero under the sign-first comparison. SA-N: the automaton of the numeral recogniser behind NewNumber (state functions interpreted abstractly, counters abstracted) is compared by product construction with the RFC 8259 number automaton over all 256 bytes in every reachable state pair, including where a numeral may end. FL-1: no library function holds a floating-point value or calls strconv float conversions/math/big (the only float helper, Number.ToFloat, has no library caller). T3: bounds are compared only through the exact comparison (Number.Cmp as an ordering atom) with the correct comparator.",
+		Rules:   []string{"SA-N", "FL-1", "FL-2", "EE-1", "T3", "T-cmp", "NZ-1", "T9", "NX-1", "T-intfloat", "LIM-1", "PIPE-3"},
+		Explain: "PIPE-3: every path of the numeral scanner to a successful return passes both zero-trimming calls and the sign-of-zero test, so every Number is in normal form. LIM-1: no magnitude limit in the number parser. T-intfloat: the four integer/float classifiers answer float iff the text has a decimal point and no exponent mark or a fraction is left after normalisation, integer iff it parses otherwise — for every text of up to three bytes over {., e, E, digit}, parser and fraction length as atoms. NX-1: after the recogniser accepted a numeral no function on the way to its Number makes an error of its own (reviewed sites aside), so no magnitude or length limit is imposed. T9 (const part): a const rule compares two numerals by exact value (Number.Cmp), not by spelling. NZ-1: the function that builds an exact Number clears the sign when no significant digit is left, so negative zero equals zero under the sign-first comparison. SA-N: the automaton of the numeral recogniser behind NewNumber (state functions interpreted abstractly, counters abstracted) is compared by product construction with the RFC 8259 number automaton over all 256 bytes in every reachable state pair, including where a numeral may end. FL-1: no library function holds a floating-point value or calls strconv float conversions/math/big (the only float helper, Number.ToFloat, has no library caller). T3: bounds are compared only through the exact comparison (Number.Cmp as an ordering atom) with the correct comparator.",
 		Assume: []string{
 			"correctness of the digit-string comparison and of exponent folding/zero trimming (arithmetic over unbounded digit strings), including negative zero, is not decided",
 		},
@@ -158,8 +158,8 @@ func init() {
 	})
 	property(&Property{
 		ID:      "C16",
-		Rules:   []string{"OR-1", "T12", "T-ast", "T-orlist", "T-astref", "T-astrules", "T-note"},
-		Explain: "T-note: the note text of an annotation is stored on the loader's current node exactly once whenever there is one, whatever else the loader knows. T-astrules: collectASTRules lists one entry per written rule, under its own name, in insertion order, for every order of three rules (the types list rendered under or). T-astref: a type-shortcut node's AST Value is its stored source text on every path. T-orlist: the or / type-shortcut list records every alternative as written, repeats included. OR-1: inside the once-only loader the call that builds the AST dominates loader.CompileBasic, load() dominates CompileAllOf/AddUnnamedTypes/the checkers in the once-only compiler, and GetAST returns the field the built tree is stored to — the AST mirrors the text because it is taken before any compilation step rewrites or deletes constraints. T12: the declared-or-inferred schema type of a node, judged on all 16 combinations of the indicators enum/or/type/precision and every JSON kind: enum => enum, or => mixed, type => its value, precision alone => decimal, none => the JSON kind.",
+		Rules:   []string{"OR-1", "T12", "T-ast", "T-orlist", "T-astref", "T-astrules", "T-note", "T-enumitem"},
+		Explain: "T-enumitem: an enum item is stored (and rendered in the AST) as the decoded string / the source text it was written with. T-note: the note text of an annotation is stored on the loader's current node exactly once whenever there is one, whatever else the loader knows. T-astrules: collectASTRules lists one entry per written rule, under its own name, in insertion order, for every order of three rules (the types list rendered under or). T-astref: a type-shortcut node's AST Value is its stored source text on every path. T-orlist: the or / type-shortcut list records every alternative as written, repeats included. OR-1: inside the once-only loader the call that builds the AST dominates loader.CompileBasic, load() dominates CompileAllOf/AddUnnamedTypes/the checkers in the once-only compiler, and GetAST returns the field the built tree is stored to — the AST mirrors the text because it is taken before any compilation step rewrites or deletes constraints. T12: the declared-or-inferred schema type of a node, judged on all 16 combinations of the indicators enum/or/type/precision and every JSON kind: enum => enum, or => mixed, type => its value, precision alone => decimal, none => the JSON kind.",
 		Assume: []string{
 			"field-by-field content of AST nodes, rule order and nested items, comment attachment and the generated/manual marking are not decided",
 		},
@@ -170,8 +170,8 @@ func init() {
 	})
 	property(&Property{
 		ID:      "C11",
-		Rules:   []string{"MO", "AL-1", "PL-1", "PL-2", "PL-3", "PL-4", "SW-2", "FR-1", "OR-3", "AL-2", "GV-1", "SW-4", "NU-1", "FS-1", "ON-1"},
-		Explain: "ON-1: no panic can leave the function handed to a once-wrapper's Do (exception-flow summary), so a failing first use stores its error for every later and concurrent caller. FS-1: no long-lived object keeps a foreign (standard library / third party) object that the library changes by the methods it calls on it — write effects computed over the dependency's own SSA; the cached regex example generator whose random source advanced with every Example() was found by this reading and is fixed. GV-1: no library function other than a package initialiser writes a package-level variable. SW-4: no once-latch field is ever reassigned. NU-1: the name of an anonymous type is computed from the type object itself. OR-3: the used-type list does not depend on whether the schema was compiled before it was asked for. AL-2: slices handed out by getters (rule values, names, children, keys) are not filtered in place, stored into or sorted by their clients, so objects handed out earlier do not change under later calls. FR-1: no field of a long-lived object (API objects, compiled schema, constraints) and no package variable can hold a per-operation helper (validator tree, validators, example builder, collectors, checker state), so the bookkeeping of one operation cannot reach the next or a concurrent one. SW-2: in everything reachable from the API's load/compile/AddType steps, no object reached through a root's type table (the schema objects of added types, which every root they were added to shares) is written — taint analysis over SSA from MustType/Type/TypesList to stores and receiver-writing method calls; the allOf compiler's in-place expansion of added types is the recorded known finding K2. MO: every range over a Go map in the library (inventory on each run) is order-insensitive by construction (the body only inserts/deletes entries keyed by the iteration key, counts, calls functions that can neither panic nor write shared memory — decided by an effect summary over the call graph — or collects keys that are sorted before use) or is in the reviewed table with the reason why the order cannot reach a verdict, error code, position, AST or example; a reviewed loop whose exits/writes/effectful calls change is reported again. PL-1: no alias of a pooled buffer's storage is returned, stored or captured by a function that puts the buffer back (the Example() slice must not be overwritten by later calls). PL-2: every field of the pooled loader is assigned in reset(). PL-3: json.Document rewinds before and after Check/Len.",
+		Rules:   []string{"MO", "AL-1", "PL-1", "PL-2", "PL-3", "PL-4", "SW-2", "FR-1", "OR-3", "AL-2", "GV-1", "SW-4", "NU-1", "FS-1", "ON-1", "PL-5", "SW-5"},
+		Explain: "SW-5: no exported API function stores into a field of an object it received as an argument (an added type keeps the options its owner gave it). PL-5: every reset method assigns or clears every field the object's other methods change, so a reused object starts from scratch. ON-1: no panic can leave the function handed to a once-wrapper's Do (exception-flow summary), so a failing first use stores its error for every later and concurrent caller. FS-1: no long-lived object keeps a foreign (standard library / third party) object that the library changes by the methods it calls on it — write effects computed over the dependency's own SSA; the cached regex example generator whose random source advanced with every Example() was found by this reading and is fixed. GV-1: no library function other than a package initialiser writes a package-level variable. SW-4: no once-latch field is ever reassigned. NU-1: the name of an anonymous type is computed from the type object itself. OR-3: the used-type list does not depend on whether the schema was compiled before it was asked for. AL-2: slices handed out by getters (rule values, names, children, keys) are not filtered in place, stored into or sorted by their clients, so objects handed out earlier do not change under later calls. FR-1: no field of a long-lived object (API objects, compiled schema, constraints) and no package variable can hold a per-operation helper (validator tree, validators, example builder, collectors, checker state), so the bookkeeping of one operation cannot reach the next or a concurrent one. SW-2: in everything reachable from the API's load/compile/AddType steps, no object reached through a root's type table (the schema objects of added types, which every root they were added to shares) is written — taint analysis over SSA from MustType/Type/TypesList to stores and receiver-writing method calls; the allOf compiler's in-place expansion of added types is the recorded known finding K2. MO: every range over a Go map in the library (inventory on each run) is order-insensitive by construction (the body only inserts/deletes entries keyed by the iteration key, counts, calls functions that can neither panic nor write shared memory — decided by an effect summary over the call graph — or collects keys that are sorted before use) or is in the reviewed table with the reason why the order cannot reach a verdict, error code, position, AST or example; a reviewed loop whose exits/writes/effectful calls change is reported again. PL-1: no alias of a pooled buffer's storage is returned, stored or captured by a function that puts the buffer back (the Example() slice must not be overwritten by later calls). PL-2: every field of the pooled loader is assigned in reset(). PL-3: json.Document rewinds before and after Check/Len.",
 		Assume: []string{
 			"history independence beyond the enumerated once/pool/rewind objects and stability of returned AST values are not decided",
 			"the reasons in the reviewed map-range table are a reading of the pinned tree",
@@ -183,8 +183,8 @@ func init() {
 	})
 	property(&Property{
 		ID:      "C12",
-		Rules:   []string{"SW-1", "SW-3", "AL-1", "PL-1", "PL-4", "OM-lock", "SW-2", "FR-1", "VF-1", "AL-2", "GV-1", "SW-4", "NU-1", "FS-1", "ON-1"},
-		Explain: "ON-1: no panic can leave the function handed to a once-wrapper's Do (exception-flow summary), so a failing first use stores its error for every later and concurrent caller. FS-1: no long-lived object keeps a foreign (standard library / third party) object that the library changes by the methods it calls on it — write effects computed over the dependency's own SSA; the cached regex example generator whose random source advanced with every Example() was found by this reading and is fixed. GV-1: no library function other than a package initialiser writes a package-level variable. SW-4: no once-latch field is ever reassigned. NU-1: the name of an anonymous type is computed from the type object itself. AL-2: internal slices handed out by getters are used read-only by their clients. FR-1: no field of a long-lived object (API objects, compiled schema, constraints) and no package variable can hold a per-operation helper (validator tree, validators, example builder, collectors, checker state), so the bookkeeping of one operation cannot reach the next or a concurrent one. VF-1: a validator has no slot for other validators except its parent link: child validators are made for one value and handed to the tree. SW-2: in everything reachable from the API's load/compile/AddType steps, no object reached through a root's type table (the schema objects of added types, which every root they were added to shares) is written — taint analysis over SSA from MustType/Type/TypesList to stores and receiver-writing method calls; the allOf compiler's in-place expansion of added types is the recorded known finding K2. SW-1: no function reachable from (*Schema).validate or (*exampleBuilder).Build (VTA call graph; callbacks accounted at the call sites of higher-order helpers) stores to a field, slice element or map of a schema / constraint / AST type or to a package variable, except into objects it has just allocated — validation and example building only read the shared compiled schema. PL-1: the pooled example buffer's storage does not escape (the concurrent-Example race). OM-lock: the ordered maps hold their RWMutex around every access.",
+		Rules:   []string{"SW-1", "SW-3", "AL-1", "PL-1", "PL-4", "OM-lock", "SW-2", "FR-1", "VF-1", "AL-2", "GV-1", "SW-4", "NU-1", "FS-1", "ON-1", "SW-5", "PL-5"},
+		Explain: "SW-5: an added type is not configured by the root it is added to (a write to an object other roots share). PL-5: reused objects are reset completely. ON-1: no panic can leave the function handed to a once-wrapper's Do (exception-flow summary), so a failing first use stores its error for every later and concurrent caller. FS-1: no long-lived object keeps a foreign (standard library / third party) object that the library changes by the methods it calls on it — write effects computed over the dependency's own SSA; the cached regex example generator whose random source advanced with every Example() was found by this reading and is fixed. GV-1: no library function other than a package initialiser writes a package-level variable. SW-4: no once-latch field is ever reassigned. NU-1: the name of an anonymous type is computed from the type object itself. AL-2: internal slices handed out by getters are used read-only by their clients. FR-1: no field of a long-lived object (API objects, compiled schema, constraints) and no package variable can hold a per-operation helper (validator tree, validators, example builder, collectors, checker state), so the bookkeeping of one operation cannot reach the next or a concurrent one. VF-1: a validator has no slot for other validators except its parent link: child validators are made for one value and handed to the tree. SW-2: in everything reachable from the API's load/compile/AddType steps, no object reached through a root's type table (the schema objects of added types, which every root they were added to shares) is written — taint analysis over SSA from MustType/Type/TypesList to stores and receiver-writing method calls; the allOf compiler's in-place expansion of added types is the recorded known finding K2. SW-1: no function reachable from (*Schema).validate or (*exampleBuilder).Build (VTA call graph; callbacks accounted at the call sites of higher-order helpers) stores to a field, slice element or map of a schema / constraint / AST type or to a package variable, except into objects it has just allocated — validation and example building only read the shared compiled schema. PL-1: the pooled example buffer's storage does not escape (the concurrent-Example race). OM-lock: the ordered maps hold their RWMutex around every access.",
 		Assume: []string{
 			"compile-time sharing of added types between root schemas (in-place allOf expansion of an added type used by two roots) is NOT covered by these rules — a known weakness of the pinned tree that the property names",
 			"exactly-once initialisation is inherited from sync.Once; races inside third-party code (reggen) are not examined; absence of deadlock is not decided",
@@ -196,8 +196,8 @@ func init() {
 	})
 	property(&Property{
 		ID:      "C15",
-		Rules:   []string{"EX-shape", "PL-1", "EX-shape-deep", "T-rec", "OR-4", "SA-S"},
-		Explain: "T-rec / OR-4: the recursion verdict that Example relies on treats only optional as a way out, and every descent along type references in the example builder is counted. SA-S (string clause): inside a string token the schema scanner admits only what RFC 8259 admits, so an example's strings can be re-emitted as JSON. EX-shape: the object and array example builders are interpreted abstractly for containers with 0..3 children, every child either emitted or omitted (recursion cut-off): the recorded sequence of buffer writes must be an opening bracket, the emitted elements in order exactly once with exactly one separator between two emitted elements and none dangling, and a closing bracket; object keys must be written from their source token or through an encoder, never from the decoded key text. PL-1: the returned bytes do not alias the pooled buffer.",
+		Rules:   []string{"EX-shape", "PL-1", "EX-shape-deep", "T-rec", "OR-4", "SA-S", "LIM-1"},
+		Explain: "LIM-1: no depth limit in the example builder. T-rec / OR-4: the recursion verdict that Example relies on treats only optional as a way out, and every descent along type references in the example builder is counted. SA-S (string clause): inside a string token the schema scanner admits only what RFC 8259 admits, so an example's strings can be re-emitted as JSON. EX-shape: the object and array example builders are interpreted abstractly for containers with 0..3 children, every child either emitted or omitted (recursion cut-off): the recorded sequence of buffer writes must be an opening bracket, the emitted elements in order exactly once with exactly one separator between two emitted elements and none dangling, and a closing bracket; object keys must be written from their source token or through an encoder, never from the decoded key text. PL-1: the returned bytes do not alias the pooled buffer.",
 		Assume: []string{
 			"that the emitted value validates against its schema, the choice among or-alternatives and the recursion cut-off depth are not decided",
 		},
@@ -232,8 +232,8 @@ func init() {
 	})
 	property(&Property{
 		ID:      "C09",
-		Rules:   []string{"UC-1", "OR-2", "VIS-collect", "OR-3", "OR-4", "OR-5", "OR-7", "VIS-rec", "T-rec", "OR-8"},
-		Explain: "OR-8: a node keeps its allOf rule until its parents have been added (extend dominates the removal), which is what makes an allOf cycle through the schema under check visible. T-rec: the recursion checker skips a node only when it carries optional: true or is an array, a literal or a mixed node; type references go to the alternatives check, every property of an object is followed; no other rule is consulted. VIS-rec: the recursion checker follows every property of an object, the visited node being an element of Children() (a walk over the recorded required keys misses key shortcuts). OR-7: the recursion checker descends into a type with the same table of types it found the type in (known finding K8: it hands down the type's own table, so cycles through two or more types go unnoticed). OR-5: a set whose hit is reported as recursion is unwound after the descent, so acyclic diamonds are not mistaken for cycles. OR-4: wherever a function resolves a user type through a type table and descends into it with a call that can come back, a lookup in a visited set or counter dominates the descent (a cycle of type references would otherwise overflow the stack). OR-3: the used-type list is read off the loaded tree inside the once-only loader, before CompileBasic, on every call chain that reaches the walk. VIS-*: the recursive walks (schema checker, allOf compiler, used-type collector) and the loops over the type table reach every child and every type — the visiting call is on every path through the loop body and the loop on every path to a normal return, the only bypasses being a failed comma-ok test and loop exhaustion. UC-1: in the functions reachable from the used-type collector and from the link checker (callback-aware call graph), each carrier of a user-type reference is consulted: the types list (type shortcuts, or), the type rule, allOf, additionalProperties with a user type, key shortcuts and mixed shortcut values; allOf parents are resolved against the type table when inherited properties are copied.",
+		Rules:   []string{"UC-1", "OR-2", "VIS-collect", "OR-3", "OR-4", "OR-5", "OR-7", "VIS-rec", "T-rec", "OR-8", "PIPE-2"},
+		Explain: "PIPE-2: the once-only compile step calls CompileAllOf, AddUnnamedTypes, CheckRootSchema and CheckRecursion on every path to a normal return (the way out after a failed load aside). OR-8: a node keeps its allOf rule until its parents have been added (extend dominates the removal), which is what makes an allOf cycle through the schema under check visible. T-rec: the recursion checker skips a node only when it carries optional: true or is an array, a literal or a mixed node; type references go to the alternatives check, every property of an object is followed; no other rule is consulted. VIS-rec: the recursion checker follows every property of an object, the visited node being an element of Children() (a walk over the recorded required keys misses key shortcuts). OR-7: the recursion checker descends into a type with the same table of types it found the type in (known finding K8: it hands down the type's own table, so cycles through two or more types go unnoticed). OR-5: a set whose hit is reported as recursion is unwound after the descent, so acyclic diamonds are not mistaken for cycles. OR-4: wherever a function resolves a user type through a type table and descends into it with a call that can come back, a lookup in a visited set or counter dominates the descent (a cycle of type references would otherwise overflow the stack). OR-3: the used-type list is read off the loaded tree inside the once-only loader, before CompileBasic, on every call chain that reaches the walk. VIS-*: the recursive walks (schema checker, allOf compiler, used-type collector) and the loops over the type table reach every child and every type — the visiting call is on every path through the loop body and the loop on every path to a normal return, the only bypasses being a failed comma-ok test and loop exhaustion. UC-1: in the functions reachable from the used-type collector and from the link checker (callback-aware call graph), each carrier of a user-type reference is consulted: the types list (type shortcuts, or), the type rule, allOf, additionalProperties with a user type, key shortcuts and mixed shortcut values; allOf parents are resolved against the type table when inherited properties are copied.",
 		Assume: []string{
 			"the recursion decision (a least fix-point over arbitrary type graphs), termination of Check/Validate/Example, and exactness/de-duplication of UsedUserTypes are NOT decided by any rule here",
 		},
@@ -244,8 +244,8 @@ func init() {
 	})
 	property(&Property{
 		ID:      "C18",
-		Rules:   []string{"SH-2", "T-enum", "SA-E", "AL-2", "SA-E-deep", "RX-1", "SX-eol-enum", "SX-text-enum", "RX-2", "RX-3", "EN-1"},
-		Explain: "EN-1: the value list of an enum rule only grows by appends onto the whole list; only the note of an entry is filled in afterwards. RX-3: the loop that finds the closing slash of /P/, evaluated for both states and all 256 bytes on the SSA form, is the two-state escape automaton, and the pattern taken is the text between the slashes. RX-2: the one-line schema of a regex type is formatted from the type's own Example() and Pattern() results as they are. SX-text-enum: the text of an item note is opaque. SX-eol-enum: an item note of a named enum rule ends at its line break (an empty // used to swallow the next value). RX-1: the example of a regex type is the generator's sample, unchanged. AL-2: the value list a named enum rule hands out (Values) is not rewritten by the loader that copies it into {enum: @E}. SH-2: inline enum lists and named enum rules insert their items through the same constraint.NewEnumItem / (*Enum).Append (shared normalisation and duplicate rejection), and the enum-rule scanner's duplicate key uses the same normalisation steps. SA-E: the enum-rule scanner accepts exactly RFC 8259 arrays of scalars (exponents aside) with the reference event stream, so Values lists the literals in source order with exact spans.",
+		Rules:   []string{"SH-2", "T-enum", "SA-E", "AL-2", "SA-E-deep", "RX-1", "SX-eol-enum", "SX-text-enum", "RX-2", "RX-3", "EN-1", "T-enumitem", "SX-eofnote-enum"},
+		Explain: "SX-eofnote-enum: an enum rule whose last line is an inline note without a final line break is accepted like the same rule with one. T-enumitem: named and inline enum items keep the text they were written with, so both spellings compare alike. EN-1: the value list of an enum rule only grows by appends onto the whole list; only the note of an entry is filled in afterwards. RX-3: the loop that finds the closing slash of /P/, evaluated for both states and all 256 bytes on the SSA form, is the two-state escape automaton, and the pattern taken is the text between the slashes. RX-2: the one-line schema of a regex type is formatted from the type's own Example() and Pattern() results as they are. SX-text-enum: the text of an item note is opaque. SX-eol-enum: an item note of a named enum rule ends at its line break (an empty // used to swallow the next value). RX-1: the example of a regex type is the generator's sample, unchanged. AL-2: the value list a named enum rule hands out (Values) is not rewritten by the loader that copies it into {enum: @E}. SH-2: inline enum lists and named enum rules insert their items through the same constraint.NewEnumItem / (*Enum).Append (shared normalisation and duplicate rejection), and the enum-rule scanner's duplicate key uses the same normalisation steps. SA-E: the enum-rule scanner accepts exactly RFC 8259 arrays of scalars (exponents aside) with the reference event stream, so Values lists the literals in source order with exact spans.",
 		Assume: []string{
 			"the regex half (Go %q quoting when a regex type is turned into a schema, the third-party example generator, Len of the /P/ token) and the verdict equivalence itself are not decided",
 		},
